@@ -91,6 +91,48 @@ def cxx_inventory(repo):
     return statics, nsvars, gil
 
 
+def nogil_api(repo):
+    """identifiers of the Python C API that occur between a `gil_release x;` and the end of its block (or an explicit x.restore())"""
+    out = []
+    files = []
+    for root, _, fs in os.walk(os.path.join(repo, "mahotas")):
+        for f in fs:
+            if f.endswith((".cpp", ".hpp", ".h")):
+                files.append(os.path.join(root, f))
+    for path in sorted(files):
+        rel = os.path.relpath(path, os.path.join(repo, "mahotas"))
+        src = strip(open(path).read())
+        for m in re.finditer(r"\bgil_release\s+(\w+)\s*;", src):
+            depth, i = 0, m.end()
+            while i < len(src):
+                if src[i] == "{":
+                    depth += 1
+                elif src[i] == "}":
+                    if depth == 0:
+                        break
+                    depth -= 1
+                i += 1
+            region = src[m.end():i]
+            # after an explicit x.restore() the lock is held until the end of the innermost block containing that call
+            while True:
+                r = re.search(r"\b%s\s*\.\s*restore\s*\(" % re.escape(m.group(1)), region)
+                if not r:
+                    break
+                d2, j = 0, r.end()
+                while j < len(region):
+                    if region[j] == "{":
+                        d2 += 1
+                    elif region[j] == "}":
+                        if d2 == 0:
+                            break
+                        d2 -= 1
+                    j += 1
+                region = region[:r.start()] + region[j:]
+            for ident in sorted(set(re.findall(r"\bPy[A-Za-z_]\w*", region))):
+                out.append((rel, ident))
+    return sorted(set(out))
+
+
 def written_in(repo, rel, decl):
     """is the namespace-scope variable assigned anywhere in its file after its definition?"""
     name = re.findall(r"(\w+)\s*(?:\[[^\]]*\])?\s*$", decl)
@@ -210,6 +252,8 @@ def generate(repo):
         out.append("(* (file, declaration, assigned again after its definition) *)\nDefinition cxx_namespace_vars : list (string * string * bool) :=\n  [%s].\n"
                    % ";\n   ".join("(%s, %s, %s)" % (cstr(a), cstr(b), "true" if written_in(repo, a, b) else "false") for a, b in nsvars))
         out.append("Definition gil_release_uses : list (string * string) :=\n  [%s].\n" % ";\n   ".join("(%s, %s)" % (cstr(a), cstr(b)) for a, b in gil))
+        out.append("(* Python C-API identifiers used while the lock is released *)\nDefinition nogil_python_api : list (string * string) :=\n  [%s].\n"
+                   % ";\n   ".join("(%s, %s)" % (cstr(a), cstr(b)) for a, b in nogil_api(repo)))
         status["threads:cxx_inventory"] = "ok"
     except (OSError, ValueError) as e:
         out.append("(* TRANSLATION FAILED for the C++ inventory: %s *)\n" % e)
